@@ -5,6 +5,7 @@ package main
 import (
 	"fmt"
 	"go/types"
+	"strings"
 )
 
 func derefType(t types.Type) types.Type {
@@ -205,6 +206,12 @@ func (s *State) checkFrameWrite(base, ref, where string) {
 	check(s.fnFrame, "func")
 	for _, lf := range s.loops {
 		check(lf.Frame, "loop:"+lf.L.Name)
+		// the model of range-over-map assumes the ranged map itself is not written inside the loop
+		if lf.L.MapRange != nil && strings.HasPrefix(base, "mapdom<") {
+			if it, ok := s.iters[lf.L.MapRange]; ok && base == "mapdom<"+typeKey(it.MapT)+">" {
+				s.oblige("safety", "ranged-map-unmodified@"+lf.L.Name, append([]string{"C19"}, s.defaultProps()...), not(eq(ref, it.MapRef)), where, "a map is written while it is being ranged over")
+			}
+		}
 	}
 }
 
